@@ -27,7 +27,7 @@ def policy_families():
     # time: the proxy is built under the opposite values and the family's are set afterwards; the latest values govern
     f.append(fam("px_memory_policy_switched_off", late=True))
     f.append(fam("px_file_policy_switched_on", backend="file", late=True, IgnoreCC=True, ForceDefault=True))
-    # the switches are flipped in the middle of a history (action SetPolicy): an answer is judged by the values in force when
+    # the switches and default_max_age are changed in the middle of a history (action SetPolicy): an answer is judged by the values in force when
     # it arrives, an entry keeps the lifetime it was given
     f.append(fam("px_memory_policy_flips", PolicyFlips=True, genforms="FlipForms", NRes=1, Kinds={"get"}, Conds={"none", "inm"}))
     f.append(fam("px_file_policy_flips", backend="file", PolicyFlips=True, IgnoreCC=True, genforms="FlipForms", NRes=2, NClients=2,
